@@ -27,6 +27,13 @@ Typed ==
   \cup { <<"vec_str", <<"arr", <<S(<<120>>), S(<<>>)>>>>>>, <<"vec_vec_u8", <<"arr", <<<<"bin", <<1>>>>, <<"bin", <<>>>>>>>>>>,
          <<"map_str_i32", <<"map", <<<<S(<<97>>), U(1)>>, <<S(<<98>>), U(300)>>>>>>>>,
          <<"map_i32_str", <<"map", <<<<U(-5), S(<<120>>)>>, <<U(200), S(<<121>>)>>>>>>>> }
+  \* further std types (serialized like a base type, see LoadScript!TypeAlias); small values: nested integers must not depend on C++ signedness
+  \cup { <<"opt_i32", U(5)>>, <<"uptr_i32", U(-3)>>, <<"atomic_i32", U(100)>>, <<"sptr_str", S(<<120, 121>>)>>, <<"wstr", S(<<208, 159, 120>>)>>,
+         <<"enum_color", S(<<71, 114, 101, 101, 110>>)>>, <<"enum_color", S(<<66, 108, 117, 101>>)>>,
+         <<"set_i32", <<"arr", <<U(-3), U(1), U(40)>>>>>>, <<"arr3_i32", <<"arr", <<U(1), U(2), U(3)>>>>>>, <<"deque_i32", <<"arr", <<U(7), U(-1)>>>>>>,
+         <<"list_str", <<"arr", <<S(<<120>>), S(<<>>)>>>>>>,
+         <<"pair_str_i32", <<"map", <<<<S(<<107, 101, 121>>), S(<<107>>)>>, <<S(<<118, 97, 108, 117, 101>>), U(9)>>>>>>>>,
+         <<"tuple_i32_str_f64", <<"arr", <<U(1), S(<<113>>), <<"f64", Bytes8(63, 248, 0, 0, 0, 0, 0, 0)>>>>>>>> }
 
 Leaf(tv) == [k |-> "leaf", t |-> tv[1], v |-> tv[2]]
 ReqOp(key, tv) == [op |-> "req", ks |-> key, t |-> tv[1], v |-> tv[2]]
